@@ -270,10 +270,11 @@ let dec_mpnlri m afi safi body =
      | None -> None)
   | None -> Some (MpOther (afi, safi, body))
 
-(** val dec_attr_val : mode -> coq_N -> coq_N -> coq_N list -> attr option **)
+(** val dec_attr_val :
+    mode -> bool -> bool -> coq_N -> coq_N -> coq_N list -> attr option **)
 
-let dec_attr_val m fl ty v =
-  if N.eqb ty (Npos (Coq_xO (Coq_xI (Coq_xI Coq_xH))))
+let dec_attr_val m s14 s15 fl ty v =
+  if (&&) (N.eqb ty (Npos (Coq_xO (Coq_xI (Coq_xI Coq_xH))))) (negb s14)
   then (match v with
         | [] -> None
         | ah :: l ->
@@ -296,7 +297,7 @@ let dec_attr_val m fl ty v =
                           | Some n -> Some (AReach (fl, nh, rsv, n))
                           | None -> None))
                     | None -> None)))))
-  else if N.eqb ty (Npos (Coq_xI (Coq_xI (Coq_xI Coq_xH))))
+  else if (&&) (N.eqb ty (Npos (Coq_xI (Coq_xI (Coq_xI Coq_xH))))) (negb s15)
        then (match v with
              | [] -> None
              | ah :: l ->
@@ -309,11 +310,22 @@ let dec_attr_val m fl ty v =
                      (match dec_mpnlri m (u16 ah al) sf body with
                       | Some n -> Some (AUnreach (fl, n))
                       | None -> None))))
-       else Some (AGen (fl, ty, v))
+       else if (&&)
+                 ((||) (N.eqb ty (Npos (Coq_xO (Coq_xI (Coq_xI Coq_xH)))))
+                   (N.eqb ty (Npos (Coq_xI (Coq_xI (Coq_xI Coq_xH))))))
+                 (ltb (length v) (S (S (S O))))
+            then None
+            else Some (AGen (fl, ty, v))
 
-(** val dec_attrs : mode -> nat -> coq_N list -> attr list option **)
+(** val seen : mode -> bool -> coq_N -> coq_N -> bool **)
 
-let rec dec_attrs m fuel = function
+let seen m s ty k =
+  (||) s ((&&) (strict m) (N.eqb ty k))
+
+(** val dec_attrs :
+    mode -> bool -> bool -> nat -> coq_N list -> attr list option **)
+
+let rec dec_attrs m s14 s15 fuel = function
 | [] -> Some []
 | fl :: l ->
   (match l with
@@ -340,9 +352,13 @@ let rec dec_attrs m fuel = function
            (match take_n n r with
             | Some p0 ->
               let (v, rest') = p0 in
-              (match dec_attr_val m fl ty v with
+              (match dec_attr_val m s14 s15 fl ty v with
                | Some a ->
-                 (match dec_attrs m fuel' rest' with
+                 (match dec_attrs m
+                          (seen m s14 ty (Npos (Coq_xO (Coq_xI (Coq_xI
+                            Coq_xH)))))
+                          (seen m s15 ty (Npos (Coq_xI (Coq_xI (Coq_xI
+                            Coq_xH))))) fuel' rest' with
                   | Some l0 -> Some (a :: l0)
                   | None -> None)
                | None -> None)
@@ -378,15 +394,13 @@ let encode u =
 
 (** val is_reach : attr -> bool **)
 
-let is_reach = function
-| AReach (_, _, _, _) -> true
-| _ -> false
+let is_reach a =
+  N.eqb (a_type a) (Npos (Coq_xO (Coq_xI (Coq_xI Coq_xH))))
 
 (** val is_unreach : attr -> bool **)
 
-let is_unreach = function
-| AUnreach (_, _) -> true
-| _ -> false
+let is_unreach a =
+  N.eqb (a_type a) (Npos (Coq_xI (Coq_xI (Coq_xI Coq_xH))))
 
 (** val count_if : ('a1 -> bool) -> 'a1 list -> nat **)
 
@@ -427,7 +441,7 @@ let dec_body m = function
                  (match dec_pfxs m (Npos (Coq_xO (Coq_xO (Coq_xO (Coq_xO
                           (Coq_xO Coq_xH)))))) (length w) w with
                   | Some wd ->
-                    (match dec_attrs m (length a) a with
+                    (match dec_attrs m false false (length a) a with
                      | Some attrs ->
                        (match dec_pfxs m (Npos (Coq_xO (Coq_xO (Coq_xO
                                 (Coq_xO (Coq_xO Coq_xH)))))) (length n) n with
